@@ -62,6 +62,7 @@ def check(ctx):
     # piece term
     piece_x = [n for n in xors if _unbool(kids(n)[1])['k'] == 'ArraySubscriptExpr' and 'PIECE' in cn(h, kids(n)[1])]
     okp = False
+    shape_a = False
     tbl = None
     if len(piece_x) == 1:
         n = piece_x[0]
@@ -72,6 +73,7 @@ def check(ctx):
         sidx = cn(h, kids(e)[1])
         loops = [a for a in h.ancestors(n) if a['k'] == 'ForStmt']
         if len(loops) == 2 and pidx:
+            shape_a = True
             inner_l, outer_l = loops[0], loops[1]
             oi = outer_l['ch']
             v = [x for x in walk(oi[0]) if x['k'] == 'VarDecl'] if oi[0] else []
@@ -94,6 +96,30 @@ def check(ctx):
                 size_ok = for_init_const(inner_l) == 0 and cf[2] == '<' and bs == 'position.number_of_pieces(%s)' % pidx
             okp = lo == min(v_ for k_, v_ in pe.items() if k_ != 'NO_PIECE') and hi == max(pe.values()) and inc_ok and size_ok and \
                 sidx == 'position.piece_position(%s,%s)' % (pidx, iv) and not guard_atoms_other(h, n, {pidx, iv})
+    if not okp and len(piece_x) == 1 and not shape_a:
+        # other spelling: one loop over the 64 squares, XOR of TABLE[piece on the square][square] (the NO_PIECE row is empty, R1)
+        from rules.norm import Norm
+        n = piece_x[0]
+        nmh = Norm(h)
+        e = _unbool(kids(n)[1])
+        loops = [a for a in h.ancestors(n) if a['k'] == 'ForStmt']
+        if len(loops) == 1:
+            cf = counting_for(h, loops[0])
+            lo = for_init_const(loops[0])
+            if cf:
+                iv = next(x['name'] for x in h.all_nodes() if x['k'] == 'VarDecl' and x.get('id') == cf[0])
+                hi = nmh.cval(cf[1])
+                hi = hi if cf[2] == '<=' else (hi - 1 if hi is not None and cf[2] in ('<', '!=') else None)
+                sidx = nmh.s(kids(e)[1])
+                inner = _unbool(kids(e)[0])
+                pidx = nmh.s(kids(inner)[1]) if inner['k'] == 'ArraySubscriptExpr' else None
+                tbl = _unbool(kids(inner)[0]).get('ref', {}).get('n') if inner['k'] == 'ArraySubscriptExpr' else None
+                g = nmh.facts(guard_facts(h, n))
+                g = frozenset(a for a in (g or []) if a[1] != iv and a[0] not in ('<', '<='))
+                okp = lo == 0 and hi == 63 and sidx == iv and pidx == 'position.piece_at(%s)' % iv and \
+                    g in (frozenset(), frozenset({('in', 'position.piece_at(%s)' % iv, frozenset(range(1, 13)))}))
+        if not okp:
+            raise AnalysisBroken('C18: the piece term of hash() is written in a form the rule does not know')
     ctx.ob('C18.R2.piece-term', 'hash', okp,
            'every entry of every piece list (all twelve pieces) contributes TABLE[piece][square of that entry], unconditionally', site=h.loc())
 
@@ -154,14 +180,15 @@ def classify_specials(ctx, p, h, specials, ce):
             ctx.ob('C18.R2.special-once', 'hash:%d' % n.get('l', 0), False, 'a special constant is XORed inside a loop', site=h.loc(n))
             ok_all = False
             continue
-        g = facts_atoms(h, guard_facts(h, n))
+        g = _inline_atoms(h, guard_facts(h, n))
         val = e.get('cv')
         if e['k'] == 'ArraySubscriptExpr':
             name = _unbool(kids(e)[0]).get('ref', {}).get('n')
             idx = cn(h, kids(e)[1])
             tv = p.val(name)
+            pawn_kind = p.enum(E + 'PieceKind')['PAWN']
             want = frozenset({('in', 'position.enpassant_square()', frozenset(range(64))),
-                              ('truthy', '(pawn_attacks(square_bb(position.enpassant_square()),!(position.color()))&position.pieces(position.color(),PAWN))', True)})
+                              ('truthy', '(pawn_attacks(square_bb(position.enpassant_square()),!(position.color()))&position.pieces(position.color(),%d))' % pawn_kind, True)})
             g2 = frozenset(_inline_atoms(h, guard_facts(h, n)))
             ok = idx == 'file(position.enpassant_square())' and g2 == want and len(tv) == 8
             if not ok and idx == 'file(position.enpassant_square())':
@@ -187,10 +214,12 @@ def classify_specials(ctx, p, h, specials, ce):
             ok_all = False
             continue
         a = next(iter(g))
-        if a[0] == 'truthy' and a[1].startswith('(position.castling_rights()&') and a[2] is True:
-            rn = a[1][len('(position.castling_rights()&'):-1]
-            if rn not in ('W_OO', 'W_OOO', 'B_OO', 'B_OOO') or rn in use:
-                ctx.ob('C18.R2.castling', 'hash:%d' % n.get('l', 0), False, 'castling term governed by %s' % rn, site=h.loc(n))
+        import re as _re
+        mc = _re.fullmatch(r'\((\d+)&position\.castling_rights\(\)\)', a[1]) if a[0] == 'truthy' and isinstance(a[1], str) else None
+        if mc and a[2] is True:
+            rn = {ce['W_OO']: 'W_OO', ce['W_OOO']: 'W_OOO', ce['B_OO']: 'B_OO', ce['B_OOO']: 'B_OOO'}.get(int(mc.group(1)))
+            if rn is None or rn in use:
+                ctx.ob('C18.R2.castling', 'hash:%d' % n.get('l', 0), False, 'castling term governed by the mask %s' % mc.group(1), site=h.loc(n))
                 ok_all = False
                 continue
             use[rn] = val
@@ -249,19 +278,7 @@ def unmasked_shifts(h, conds, p):
 
 
 def _inline_atoms(h, facts):
-    """atoms of guard facts with single-definition locals inlined"""
-    from rules.atoms import norm_atom as na, _unbool as ub
-    from rules.atoms import cn as cn_, TAUT
-    loop_conds = {cn_(h, l['ch'][2], True) for l in h.all_nodes() if l['k'] == 'ForStmt' and l['ch'][2]} | \
-                 {cn_(h, kids(l)[0], True) for l in h.all_nodes() if l['k'] == 'WhileStmt'}
-    out = set()
-    for c, t in facts:
-        c = ub(c)
-        if c['k'] == 'BinaryOperator' and c.get('op') in ('&&', '||'):
-            continue
-        if not t and cn_(h, c, True) in loop_conds:
-            continue
-        a = na(h, c, t, inline=True)
-        if a != TAUT:
-            out.add(a)
-    return out
+    """atoms of guard facts in normal form (locals and new helpers read through)"""
+    from rules.norm import Norm
+    r = Norm(h).facts(facts)
+    return r if r is not None else frozenset({('false',)})
